@@ -805,6 +805,10 @@ package schema
 //@   assigns rawData
 //@ func UnitsDefinition.getSortedMultipliersCache(u) -> res
 //@   loop 1 invariant multipliers == nil || fresh(multipliers)
+//@   trusted
+//@   ensures forall j int :: 0 <= j && j < len(res) ==> res[j] in u.MultipliersValue
+//@   ensures u.MultipliersValue == old(u.MultipliersValue) && u.BaseUnitValue == old(u.BaseUnitValue) && u.reCache == old(u.reCache) && u.reSubExpNames == old(u.reSubExpNames)
+//@   assigns u.sortedMultipliersCache
 //@ func UnitsDefinition.updateReCache(u)
 
 // ---------------------------------------------------------------------------------------------
@@ -818,7 +822,7 @@ package schema
 //@   ensures err == nil ==> res != nil
 //@ interface Type.Serialize(this, data) -> res, err
 //@   ensures err == nil ==> res != nil
-//@ invariant UnitsDefinition(u): u.BaseUnitValue != nil
+//@ invariant UnitsDefinition(u): u.BaseUnitValue != nil && (forall k int64 :: k in u.MultipliersValue ==> k >= 2) && (u.sortedMultipliersCache != nil ==> (forall j int :: 0 <= j && j < len(u.sortedMultipliersCache) ==> u.sortedMultipliersCache[j] in u.MultipliersValue))
 //@ nonnil *UnitDefinition
 //@ interface Type.ReflectedType(this) -> res
 //@   ensures res != nil
@@ -858,3 +862,37 @@ package schema
 //@   loop 1 invariant 0 <= i && len(args) == len(arguments) && fresh(args) && (forall j int :: 0 <= j && j < i ==> args[j] == rv_of(arguments[j]))
 //@   ensures len(arguments) != t_numin(rv_type(f.Handler)) ==> typeOf(err) == type(*FunctionCallError) && !err.(*FunctionCallError).IsFunctionReportedError && ghost("rvcalls") == old(ghost("rvcalls"))
 //@   ensures len(arguments) == t_numin(rv_type(f.Handler)) ==> ghost("rvcalls") == old(ghost("rvcalls")) + 1
+
+// ---------------------------------------------------------------------------------------------
+// C16: units. The arithmetic of parsing is decided in the mathematical integers with overflow obligations
+// (arith); strings are uninterpreted, so what is pinned at the string level is which library
+// function is applied to what (trimming before the emptiness test, the anchors of the regular expression,
+// base-10 parsing of each group).
+// ---------------------------------------------------------------------------------------------
+
+//@ func UnitsDefinition.handleParseMultiplier(u, result, multiplier, intNumber, floatNumber, isFloat) -> newInt, newFloat, newIsFloat, err
+//@   arith
+//@   requires multiplier >= 1 && intNumber >= 0
+//@   ensures result == "" ==> err == nil && newInt == intNumber && same(newFloat, floatNumber) && newIsFloat == isFloat
+//@   ensures result != "" && !strings_Contains(result, ".") && !parseint_ok(result) ==> err != nil
+//@   ensures result != "" && !strings_Contains(result, ".") && err == nil ==> parseint_ok(result) && parseint_val(result) >= 0 ==> (newIsFloat == isFloat && (!isFloat ==> newInt == intNumber + parseint_val(result) * multiplier))
+//@   ensures result != "" && !strings_Contains(result, ".") && parseint_ok(result) && parseint_val(result) >= 0 && !isFloat && intNumber + parseint_val(result) * multiplier > 9223372036854775807 ==> err != nil
+//@   ensures err == nil ==> newInt >= 0 || intNumber < 0
+//@   ensures result != "" && strings_Contains(result, ".") ==> ((err == nil) == parsefloat_ok(result)) && (err == nil ==> newIsFloat)
+
+//@ func UnitsDefinition.buildUnitParseError(u, data) -> res, err
+//@   ensures err != nil
+//@ func UnitsDefinition.parse(u, data) -> res, err
+//@   checks strings_TrimSpace(old(data)) == "" ==> err != nil
+//@   loop 1 invariant intNumber >= 0 && u.MultipliersValue == old(u.MultipliersValue)
+//@   ensures err == nil ==> typeOf(res) == type(int64) || typeOf(res) == type(float64)
+
+//@ func UnitsDefinition.updateReCache(u)
+//@   checks exists s string :: regex == "^\\s*" + s + "\\s*$"
+//@   ensures u.reCache != nil && u.reSubExpNames != nil
+//@   assigns u.reCache, u.reSubExpNames, u.sortedMultipliersCache
+
+//@ func UnitsDefinition.ParseInt(u, data) -> res, err
+//@   ensures true
+//@ func UnitsDefinition.ParseFloat(u, data) -> res, err
+//@   ensures true
